@@ -1,6 +1,6 @@
 #!/usr/bin/env python3
 """tools/recheck.py <ID-X> <check>... : re-runs quick checks against a stored seeded change (no worktree needed)
-and updates checks/caught_by in seeded/<ID-X>/meta.json. /repo must be clean; it is restored afterwards."""
+and updates checks/caught_by in seeded/<ID-X>/meta.json. Runs in a scratch worktree (tools/alt.py); /repo is not touched."""
 import json, os, subprocess, sys
 name, checks = sys.argv[1], sys.argv[2:]
 d = "/verif/seeded/" + name
@@ -8,15 +8,11 @@ env = dict(os.environ, GOFLAGS="-mod=mod", GOPROXY="off", VERIF_NOEVIDENCE="1");
 def sh(cmd, cwd): 
     p = subprocess.run(cmd, cwd=cwd, env=env, shell=True, stdout=subprocess.PIPE, stderr=subprocess.STDOUT, text=True)
     return p.returncode, p.stdout
-assert sh("git status --porcelain", "/repo")[1].strip() == "", "/repo not clean"
-rc, out = sh("git apply %s/patch.diff" % d, "/repo"); assert rc == 0, out
+sys.path.insert(0, "/verif/tools")
+from alt import run_alt
 m = json.load(open(d + "/meta.json"))
-try:
-    for c in checks:
-        rc, out = sh("./check %s --tier quick" % c, "/verif")
-        m.setdefault("checks", {})[c] = {"exit": rc, "lines": [l for l in out.splitlines() if l.startswith(("VIOLATION", "KNOWN-FINDING", "INCONCLUSIVE"))][:6]}
-finally:
-    sh("git checkout -- . && git clean -fdq", "/repo")
+for c, v in run_alt(d + "/patch.diff", name, checks).items():
+    m.setdefault("checks", {})[c] = v
 m["caught_by"] = sorted(k for k, v in m["checks"].items() if v["exit"] == 1)
 json.dump(m, open(d + "/meta.json", "w"), indent=1)
 print("RESULT", name, "caught_by", m["caught_by"])
